@@ -19,6 +19,7 @@ THEOREMS = [
     "BeyondVerif.C12.unfloat_float_id",
     "BeyondVerif.C12.unfloat_float_zero",
     "BeyondVerif.C12.float_unfloat_id",
+    "BeyondVerif.C12.written_lines_valid",
     "BeyondVerif.C12.from_string_yields_valid_entries",
     "BeyondVerif.C12.from_string_framed_exact",
     "BeyondVerif.C12.reference_tles_roundtrip",
